@@ -232,17 +232,18 @@ Theorem lift_undoable : forall o x y, Undoable op_undo op_redo eqv o (xb x) (xb 
   Undoable xop_undo xop_redo xeqv (xfop o) x y.
 Proof. exact Undoable_lift. Qed.
 
-(* per-record soundness of the remaining undo operations (families as in undo_operations_sound; the side conditions inside the
-   families are exactly the complements of the known classes: SetFont needs the recorded old font to be the font of the slot it
-   writes, AddFont / ChangeFontSlot an empty target slot, ResizeBuffer / Crop a SAUCE size in sync with the buffer size) *)
+(* per-record soundness of the remaining undo operations (families as in undo_operations_sound). After the fix commits no family
+   carries a side condition on the state: SetFont records the content of the slot it writes, AddFont / ChangeFontSlot capture the
+   font of the target slot on redo and put it back on undo, ResizeBuffer / Crop record the size the SAUCE record carried *)
 Theorem undo_operations_sound_x :
   lclosed xop_undo xop_redo xeqv U_palette R_palette /\ lclosed xop_undo xop_redo xeqv U_sauce R_sauce /\
-  xstable P_setfont /\ xstable P_addfont /\ lclosed xop_undo xop_redo xeqv U_remfont R_remfont /\ xstable P_fontslot /\
+  xstable P_setfont /\ lclosed xop_undo xop_redo xeqv U_addfont R_addfont /\ lclosed xop_undo xop_redo xeqv U_remfont R_remfont /\
+  lclosed xop_undo xop_redo xeqv U_fontslot R_fontslot /\
   xstable P_replfont /\ xstable P_icemode /\ xstable P_palmode /\ xstable P_xresize /\ xstable P_xnodoc /\
   lclosed xop_undo xop_redo xeqv U_paste R_paste /\ lclosed xop_undo xop_redo xeqv U_merge R_merge /\
   lclosed xop_undo xop_redo xeqv U_crop R_crop /\ xstable P_rotate /\ xstable P_scroll.
 Proof.
-  exact (conj palette_closed (conj sauce_closed (conj setfont_stable (conj addfont_stable (conj remfont_closed (conj fontslot_stable
+  exact (conj palette_closed (conj sauce_closed (conj setfont_stable (conj addfont_closed (conj remfont_closed (conj fontslot_closed
         (conj replfont_stable (conj icemode_stable (conj palmode_stable (conj xresize_stable (conj xnodoc_stable (conj paste_closed
         (conj merge_closed (conj crop_closed (conj rotate_stable scroll_stable))))))))))))))).
 Qed.
@@ -253,11 +254,15 @@ Qed.
    (for ANY cell conversion / palette plan), merge_layer_down, anchor_layer, stamp_layer_down, paste_clipboard_data,
    add_selection_to_mask, inverse_selection, enumerate_selections (ANY callback), clear_selection, erase_selection and the nine
    row / column wrappers reading the selection mask, rotate_layer (ANY character table), scroll_area_up / down over the whole
-   layer width — is a sound edit whenever it is applied OUTSIDE its known class K (a predicate on the state it is applied to;
-   `never` for most) *)
+   layer width — is a sound edit whenever it is applied OUTSIDE its known class K (a predicate on the state it is applied to).
+   Since the fix commits for the four font / SAUCE findings EVERY constructor of xmodelled carries K = `never` (= fun _ => False):
+   the premise ~ K (cur e) is trivially true (x_api_sound_everywhere) *)
 Theorem x_api_sound : forall f K, xmodelled f K ->
   forall e e', ~ K (cur e) -> f e = Ok e' -> edit_chain xop_undo xop_redo xeqv e e'.
 Proof. exact xmodelled_sound. Qed.
+
+Theorem x_api_sound_everywhere : forall f K, xmodelled f K -> (forall s, ~ K s) /\ forall e e', f e = Ok e' -> edit_chain xop_undo xop_redo xeqv e e'.
+Proof. exact xmodelled_sound_everywhere. Qed.
 
 (* x_undo_redo_history: any history over the modelled operations on the full document, each applied outside its known class
    and reporting Ok, from a fresh editor; then EVERY interleaving of undo / redo steps: no step fails or panics and the full
@@ -269,16 +274,22 @@ Theorem x_undo_redo_history : forall fs (e0 en : XE) d, fresh e0 -> xrun fs e0 e
     forall w, exists e', run_ur xop_undo xop_redo w en = Ok e' /\ xeqv (cur e') (nth (walk w n n) tl d).
 Proof. exact x_history_proof. Qed.
 
-(* the known classes are not empty: inside each, the operation reports Ok and its undo does not restore the document
-   (known findings C08-setfont-records-slot0, C08-addfont-overwrites-slot, C08-fontslot-overwrites-slot, C08-resize-rewrites-sauce-size) *)
-Theorem known_setfont_witness : undo_fails_to_restore (x_set_font false (Some 8%N)) known_setfont (wit_doc [(0, 1); (2, 6)]%N None 3 2).
-Proof. exact known_setfont_witness_proof. Qed.
-Theorem known_addfont_witness : undo_fails_to_restore (x_add_ansi_font 2 (Some 8%N)) (known_addfont 2) (wit_doc [(0, 1); (2, 6)]%N None 3 0).
-Proof. exact known_addfont_witness_proof. Qed.
-Theorem known_fontslot_witness : undo_fails_to_restore (x_change_font_slot 2 3) (known_fontslot 2 3) (wit_doc [(0, 1); (2, 6); (3, 7)]%N None 3 0).
-Proof. exact known_fontslot_witness_proof. Qed.
-Theorem known_sauce_size_witness : undo_fails_to_restore (x_resize_buffer 3 1) known_sauce_size (wit_doc [(0, 1)]%N (Some (mkSauce 7 3 5)) 0 0).
-Proof. exact known_sauce_size_witness_proof. Qed.
+(* the four repaired records (fixed findings C08-setfont-records-slot0, C08-addfont-overwrites-slot, C08-fontslot-overwrites-slot,
+   C08-resize-rewrites-sauce-size): on the witness documents of the former known classes the operation followed by undo now restores
+   the document (undo_restores), while the record the code pushed BEFORE the fix commit — SetFont with the font of slot 0, AddFont /
+   ChangeFontSlot without the captured font, ResizeBuffer without the recorded SAUCE size — undone from the same state does not *)
+Theorem setfont_before_fix_refuted :
+  before_fix_refuted (x_set_font false (Some 8%N)) (wit_doc [(0, 1); (2, 6)]%N None 3 2) (XSetFont 2 (Some 1%N) 8).
+Proof. exact setfont_before_fix_refuted_proof. Qed.
+Theorem addfont_before_fix_refuted :
+  before_fix_refuted (x_add_ansi_font 2 (Some 8%N)) (wit_doc [(0, 1); (2, 6)]%N None 3 0) (XAddFont 0 2 8 None).
+Proof. exact addfont_before_fix_refuted_proof. Qed.
+Theorem fontslot_before_fix_refuted :
+  before_fix_refuted (x_change_font_slot 2 3) (wit_doc [(0, 1); (2, 6); (3, 7)]%N None 3 0) (XChangeFontSlot 2 3 None).
+Proof. exact fontslot_before_fix_refuted_proof. Qed.
+Theorem resize_sauce_size_before_fix_refuted :
+  before_fix_refuted (x_resize_buffer 3 1) (wit_doc [(0, 1)]%N (Some (mkSauce 7 3 5)) 0 0) (XResizeBuffer 4 2 3 1 None).
+Proof. exact resize_sauce_size_before_fix_refuted_proof. Qed.
 
 (* insert / delete row and column (known finding C08-rowcol-raw-lines): undoing such a record from EXACTLY the state its redo
    produced restores the document, but the record is not invariant under xeqv: from an equivalent state that stores its rows in
@@ -312,8 +323,8 @@ Proof.
     eapply xrun_cons; [apply xm_lift, lf_set_char|intros []|vm_compute; reflexivity|].
     eapply xrun_cons; [apply xm_paste|intros []|vm_compute; reflexivity|].
     eapply xrun_cons; [apply xm_merge_layer_down|intros []|vm_compute; reflexivity|].
-    eapply xrun_cons; [apply xm_resize_buffer_layers|intro H; apply H; exact I|vm_compute; reflexivity|].
-    eapply xrun_cons; [apply xm_add_ansi_font|intro H; apply H; reflexivity|vm_compute; reflexivity|].
+    eapply xrun_cons; [apply xm_resize_buffer_layers|intros []|vm_compute; reflexivity|].
+    eapply xrun_cons; [apply xm_add_ansi_font|intros []|vm_compute; reflexivity|].
     eapply xrun_cons; [apply (xm_set_ice_mode ice_conv)|intros []|vm_compute; reflexivity|].
     apply xrun_nil.
   - repeat split; reflexivity.
